@@ -38,9 +38,9 @@ func init() {
 		ID:    "C20",
 		Level: "exploration",
 		Rule: "even cases (a): N generated messages marshalled and unmarshalled with rpc.Codec — field lists of random expression trees (whole aggregate grammar incl. IF conditions, BOUNDED, PERCENTILE, SHIFT, unary math), " +
-			"dim/value maps, sequences, flat rows, Query/Insert/Point/RemoteQueryResult/Follow messages; the decoded object must have the same String()/EncodedWidth() and behave the same " +
+			"dim/value maps, sequences, flat rows, Query/Insert/Point/RemoteQueryResult/Follow messages, bursts of 1-400 KB messages (also marshalled concurrently), empty-but-not-nil keys; bytes returned by Marshal must not be changed by later Marshal calls; the decoded object must have the same String()/EncodedWidth() and behave the same " +
 			"(identical state bytes after the same random Updates, identical Get, identical Merge and SubMergers results against the original's states); " +
-			"odd cases (b): twin databases, one fed and queried through rpc client/server on loopback (snappy connection wrapper), one embedded, generated table/points/queries must give the same rows and metadata; " +
+			"odd cases (b): twin databases, one fed (in 1-4 batches, some starting with a point the handler rejects) and queried through rpc client/server on loopback (snappy connection wrapper), one embedded, generated table/points/queries (incl. wide CROSSTAB rows and large keys) must give the same rows and metadata; " +
 			"non-trivial = expression with >=2 nodes / query returning >=1 row; distinct by message hash",
 		Assumptions: []string{"both twins use the virtual clock driven by the same points", "NaN == NaN when comparing evaluation results"},
 		Cases: func(tier string) int {
